@@ -29,7 +29,16 @@ PROGS = [
     "8 | io=connected:1 ; main=sleep:1,stop ; a=csync:100000",
     "8 | io=connected:1,connected:2 ; main=destroy ; a=csync:100000 ; b=csync:100000",
     "8 | io=accept:1,connected:1,data:1:2,close:1 ; main=observe:1:o1,csync:60,connect,sleep:10",
+    # connectSyncCancellable (sub-attempts of at most 100 ms): cancelled before / during / between attempts, a connect that
+    # completes around the cancel; Cancelled only with nothing left open, ok only with a live session
+    "8 | io=sleep:40,connected:1 ; main=join ; a=ccsync:1000 ; b=sleep:30,cancel",
+    "8 | io=connected:2 ; main=join ; a=ccsync:350 ; b=sleep:120,cancel",
+    "8 | io=accept:1 ; main=join ; a=ccsync:250 ; b=sleep:130,cancel",
 ]
+
+
+def nontrivial_engine(evs):
+    return any(e["e"] == "SyncConnRet" and not e["ok"] for e in evs)
 
 
 def run(ck):
@@ -83,6 +92,16 @@ def run(ck):
     # the counterexample of MarkAbandonedOnTeardown=FALSE (Register, Fence, ReturnShutdown, IoOnConnect, IoOnClose) lies within two
     # preemptions of this program: destruction while one connectSync is parked and its connect completes late
     tc.run_dfs(ck, "8 | io=connected:1 ; main=destroy ; a=csync:100000", 2, 20000 if thorough else 2000, "dfs_td", nontrivial)
+    # the real TcpEngine under the scheduler (harness/drv_sio_engine.cpp, oracle EngineTrace.tla): a connectSync whose timeout may
+    # expire while its Connect command is still queued / the handshake is under way; whatever it returns, once it has closed what
+    # it was given nothing stays open on either side of the loopback connection ("leaves no open connection behind")
+    kw = dict(drv=tc.ENGINE_DRV, spec="EngineTrace")
+    ck.make(tc.ENGINE_DRV)
+    eprog = "main=listen,setflag:g,waitflag:d,gauge:0,stop ; a=waitflag:g,csync:20,close:0,setflag:d"
+    elines = ["%s | %s | %s %d" % (proto, eprog, "randomt" if k % 2 else "random", ck.seed * 6007 + k)
+              for proto in ("tcp", "tcpb") for k in range((150 if thorough else 40) if proto == "tcp" else (40 if thorough else 10))]
+    tc.run_cases(ck, elines, "engine_csync", nontrivial_engine, **kw)
+    tc.run_dfs(ck, "tcp | " + eprog, 1 if not thorough else 2, 8000 if thorough else 400, "engine_dfs", nontrivial_engine, **kw)
     real_engine(ck, thorough)
 
 
